@@ -244,10 +244,11 @@ def eval_cases(name, header, defs, exprs, workdir, timeout=COQC_TIMEOUT, shard=4
                 again.append((s, n, fn, out))
                 continue
             bad += [s + int(x) for x in re.findall(r"\d+", m.group(2))]
-    # a shard that did not come back (typically: the per-file time limit on a loaded machine) is evaluated once more, alone, with three
-    # times the limit, before it is reported as an obligation that does not check
+    # a shard that did not come back (typically: the per-file time limit on a loaded machine) is evaluated once more, alone, with six
+    # times the limit (the heaviest C14 thorough batch -- a core plus three database compounds, which the composition solver
+    # searches exhaustively -- took 484 s alone and hit the 600 s limit beside fifteen others), before it is reported as an obligation that does not check
     for s, n, fn, out0 in again:
-        rc, out = coqc(fn, timeout=3 * timeout, cwd=workdir)
+        rc, out = coqc(fn, timeout=6 * timeout, cwd=workdir)
         m = re.search(pat, out.replace("\n", " "))
         if rc != 0 or not m or int(m.group(1)) != n:
             errors.append((fn, (out or out0)[-3000:]))
